@@ -32,7 +32,9 @@ for fn in sorted(os.listdir(os.path.join(ROOT, "checks"))):
     pid = fn[:-3].upper()
     P.append(f"**{pid}** — {len(m.THEOREMS)} audited theorems/obligations; targets `{' '.join(m.TARGETS)}`; "
              f"translators: {', '.join(getattr(m, 'TRANSLATORS', [])) or '—'}.\n\n"
-             f"*Claim.* {m.LEVEL_TEXT}\n\n*Trusted / assumed.* {m.LEVEL_NOTE}\n")
+             f"*Claim.* {m.LEVEL_TEXT}\n\n*Trusted / assumed.* {m.LEVEL_NOTE}\n"
+             + ("\n*Trusted base (as written into the evidence).* " + " · ".join(getattr(m, "TRUSTED", [])) + "\n" if getattr(m, "TRUSTED", None) else "")
+             + ("\n*Assumptions.* " + " · ".join(getattr(m, "ASSUMPTIONS", [])) + "\n" if getattr(m, "ASSUMPTIONS", None) else ""))
 perprop = "\n".join(P)
 p = os.path.join(ROOT, "DESIGN.md")
 s = open(p).read()
